@@ -157,6 +157,10 @@ func (m *Machine) step(th *Thread) (yielded bool) {
 
 func (m *Machine) jump(fr *Frame, to *ssa.BasicBlock) {
 	// back edge accounting for unwinding bounds
+	if to.Index > fr.block.Index && fr.loops != nil {
+		// forward edge: (re-)entering a region; iteration counts of loops headed there start afresh
+		delete(fr.loops, to.Index)
+	}
 	if to.Index <= fr.block.Index {
 		if fr.loops == nil {
 			fr.loops = map[int]int{}
